@@ -1,11 +1,47 @@
 import EpdVerif.Drivers.Dsl
 import EpdVerif.Gen.Epd5in83_v2
-/-! model of `src/epd5in83_v2/mod.rs` (STUB: programs not yet transcribed) -/
+/-! model of `src/epd5in83_v2/mod.rs` -/
 namespace EpdVerif.Drivers.Epd5in83_v2
 open EpdVerif
 open EpdVerif.Gen.Epd5in83_v2
 
-def prog (_f : Feat) (_d : DState) : Op → Option (List Act)
+def W : Act := .wait IS_BUSY_LOW
+
+def sendResolution : List Act :=
+  [.cmd Command.TconResolution, .data [shr8 WIDTH 8], .data [u8 WIDTH],
+   .data [shr8 HEIGHT 8], .data [u8 HEIGHT]]
+
+def init : List Act :=
+  [.reset 2000 50] ++
+  cmdData Command.PowerSetting [0x07, 0x07, 0x3F, 0x3F] ++
+  [.cmd Command.PowerOn, .delayUs 5000, W] ++
+  cmdData Command.PanelSetting [0x1F] ++
+  sendResolution ++
+  cmdData Command.DualSPI [0x00] ++
+  cmdData Command.VcomAndDataIntervalSetting [0x10, 0x07] ++
+  cmdData Command.TconSetting [0x22] ++
+  [W]
+
+def updateFrame (d : DState) (b : Bytes) : List Act :=
+  [W, .cmd Command.DataStartTransmission1, .rep (byteValue d.bg) (WIDTH / 8 * HEIGHT)] ++
+  cmdData Command.DataStartTransmission2 b
+
+def displayFrame : List Act := [.cmd Command.DisplayRefresh, W]
+
+def prog (_f : Feat) (d : DState) : Op → Option (List Act)
+  | .new => some init
+  | .wake => some init
+  | .sleep => some ([W, .cmd Command.PowerOff, W] ++ cmdData Command.DeepSleep [0xA5])
+  | .upd b => some (updateFrame d b)
+  | .part _ _ _ _ _ => some [.panic]
+  | .disp => some displayFrame
+  | .updisp b => some (updateFrame d b ++ displayFrame)
+  | .clear =>
+    some [W, .cmd Command.DataStartTransmission1, .rep 0xFF NUM_DISPLAY_BITS,
+          .cmd Command.DataStartTransmission2, .rep 0x00 NUM_DISPLAY_BITS]
+  | .bg c => some [.upd (fun d => { d with bg := c })]
+  | .lut _ => some [.panic]
+  | .wait => some [W]
   | _ => none
 
 def panel (f : Feat) : Panel :=
